@@ -205,10 +205,24 @@ func runC17(x *Exec) {
 		store := w.S.NewHandle("kv", "kv", false, nil)
 		currentJoin := func() kvState {
 			cur, _ := lay.Versions(w.S.Bucket)
+			// A listed version that another listed version names as a merge source is that version's ancestor and
+			// is contained in it (what the descendant purged stays purged). Version names are derived from the
+			// content, so a handle that commits content identical to such an ancestor re-publishes the ancestor:
+			// the bucket cannot tell the two histories apart, and neither does this model.
+			contained := map[string]bool{}
+			for _, name := range cur {
+				if r, err := DecodeRoot(name, w.S.Bucket[lay.Current+name]); err == nil {
+					for _, par := range r.Parents {
+						if par != name {
+							contained[par] = true
+						}
+					}
+				}
+			}
 			st := kvState{}
 			for _, name := range cur {
 				vs, ok := versions[name]
-				if !ok {
+				if !ok || contained[name] {
 					continue
 				}
 				for k, e := range vs {
